@@ -1,7 +1,7 @@
 (* C12 property theorems: statements only, each closed by `exact`, with Print Assumptions,
    plus Examples showing that the hypotheses are satisfiable by concrete non-trivial objects. *)
 From Coq Require Import ZArith QArith List Bool Lia.
-From QE Require Import Base.Num Base.LinAlg Base.Gauss C12.Model C12.Proofs C12.Proofs2 C12.Proofs3 C12.Proofs4 C12.Proofs5.
+From QE Require Import Base.Num Base.LinAlg Base.Gauss C12.Model C12.Proofs C12.Proofs2 C12.Proofs3 C12.Proofs4 C12.Proofs5 C12.Proofs6.
 Import ListNotations.
 Local Open Scope Q_scope.
 
@@ -57,7 +57,31 @@ Theorem C12_kalman_equals_batch : forall n m k l (A C G Hm xh0 S0 : Qmat) (ys : 
 Proof. exact kalman_equals_batch. Qed.
 Print Assumptions C12_kalman_equals_batch.
 
-(* not proved: batch_conditional is defined (Var(y) non-singular) iff no update of the recursion raises;
+(* the recursion's own definedness suffices: if no update along the record raises (every innovation covariance F_s
+   is invertible) then Var(y_0..y_{t-1}) has a trivial kernel, the Gauss-Jordan solve of batch_conditional succeeds
+   (completeness of Base.Gauss.solve over Q, coq/C12/Proofs6.v), and the state is the conditional law *)
+Theorem C12_kalman_defined_implies_batch_defined : forall n m k l (A C G Hm xh0 S0 : Qmat) (ys : list Qmat) st,
+  (0 < k)%nat -> msym n S0 -> ys <> [] ->
+  last (kalman_path n m k l A C G Hm (xh0, S0) ys) None = Some st ->
+  exists b, batch_conditional n m k l A C G Hm xh0 S0 ys = Some b.
+Proof.
+  intros n m k l A C G Hm xh0 S0 ys st Hk Hs Hne HL. rewrite last_kalman_path in HL by assumption.
+  exact (kalman_defined_batch_defined n m k l A C G Hm xh0 S0 Hk Hs ys st HL).
+Qed.
+Print Assumptions C12_kalman_defined_implies_batch_defined.
+
+Theorem C12_kalman_is_conditioning : forall n m k l (A C G Hm xh0 S0 : Qmat) (ys : list Qmat) xk Sk,
+  (0 < k)%nat -> msym n S0 -> ys <> [] ->
+  last (kalman_path n m k l A C G Hm (xh0, S0) ys) None = Some (xk, Sk) ->
+  exists xb Sb, batch_conditional n m k l A C G Hm xh0 S0 ys = Some (xb, Sb) /\
+                meq n 1 xb xk /\ meq n n Sb Sk.
+Proof.
+  intros n m k l A C G Hm xh0 S0 ys xk Sk Hk Hs.
+  exact (kalman_is_conditioning n m k l A C G Hm xh0 S0 Hk Hs ys xk Sk).
+Qed.
+Print Assumptions C12_kalman_is_conditioning.
+
+(* converse NOT proved (batch defined => no update raises; needs positive semidefiniteness of the joint covariance);
    decided per case by the correspondence run (None must match None) *)
 Definition kalman_defined_iff_batch_defined_full : Prop :=
   forall n m k l (A C G Hm xh0 S0 : Qmat) (ys : list Qmat),
